@@ -18,6 +18,7 @@ mod s_params;
 mod s_print;
 mod s_snapshot;
 mod s_symbols;
+mod s_termparse;
 mod s_untrusted;
 mod s_versions;
 
@@ -49,6 +50,7 @@ fn main() {
         "print" => s_print::run(&opts),
         "params" => s_params::run(&opts),
         "keys" => s_keys::run(&opts),
+        "termparse" => s_termparse::run(&opts),
         "macros" => s_macros::run(&opts),
         "capi" => s_capi::run(&opts),
         "capi-child" => s_capi::child(&opts),
